@@ -917,6 +917,8 @@ vec<PTRef> LASolver::collectEqualitiesFor(vec<PTRef> const & vars, std::unordere
         auto const & equivalentVars = entry.second;
         for (int i = 0; i < equivalentVars.size(); ++i) {
             for (int j = i + 1; j < equivalentVars.size(); ++j) {
+                // An Int and a Real interface variable may share the value, but no equality exists between them
+                if (logic.getSortRef(equivalentVars[i]) != logic.getSortRef(equivalentVars[j])) { continue; }
                 PTRef eq = logic.mkEq(equivalentVars[i], equivalentVars[j]);
                 if (knownEqualities.find(eq) == knownEqualities.end()) {
                     equalities.push(eq);
